@@ -165,6 +165,12 @@ def is_barrier_obim(f):
         barrier_flag(f)
 
 
+def bsp_flag(f):
+    ta = [x.strip() for x in f.get("targs", "").split("||")[0].split("|")]
+    # both OBIM variants: <Indexer, Container, BlockPeriod, BSP, ...>
+    return len(ta) >= 4 and ta[3] == "true"
+
+
 def barrier_flag(f):
     ta = [x.strip() for x in f.get("targs", "").split("||")[0].split("|")]
     # OrderedByIntegerMetric<Indexer, Container, BlockPeriod, BSP, T, Index, UseBarrier, UseMonotonic, UseDescending, Concurrent>
@@ -180,6 +186,105 @@ def obim(ctx, fx):
              "read of another thread's state lies between the two waits, in a loop over all active threads using the "
              "scheduler's comparator; the own current bucket/index are re-assigned after the second wait from the agreed "
              "minimum; the result is !hasWork")
+    ctx.rule("C08.obim.scanstart-covers-push",
+             "OBIM / AdaptiveOBIM push() with back-scan prevention (BSP): every path to a push into a bucket other than the "
+             "thread's current one either lowers the scan watermark (scanStart = index) or passes the false edge of "
+             "`index earlier-than scanStart` - in every instantiation, barrier or not (the watermark is what the next scan "
+             "starts from; a bucket below it is never looked at again)")
+    ctx.rule("C08.obim.scanstart-invariant",
+             "outside barrier mode curIndex == scanStart is inductive: push() and slowPop() leave both unchanged or assign both "
+             "the same value on every feasible path (branches on `index earlier-than curIndex/scanStart` are the same literal "
+             "under the invariant)")
+    bsp_pushes = [f for f in insts(fx, OBIM + "::push") + insts(fx, W + "AdaptiveOrderedByIntegerMetric::push")
+                  if len(f["params"]) == 1 and bsp_flag(f)]
+    ctx.floor("BSP OBIM/AdaptiveOBIM push instantiations", len(bsp_pushes), 3)
+    ctx.floor("barrier+BSP OBIM push instantiations", len([f for f in bsp_pushes if barrier_flag(f)]), 1)
+    for f in bsp_pushes:
+        fn = ctx.fn(f)
+        al = fn.aliases()
+        idx = None
+        for _, e in fn.events(lambda e: e.get("k") == "decl" and e.get("n") == "index"):
+            idx = "index"
+
+        # Outside barrier mode curIndex == scanStart is an invariant of the class (rule scanstart-invariant, proved
+        # inductively below), so a comparison with either bounds both; in barrier mode empty() re-targets curIndex alone
+        # and only a comparison with scanStart itself counts.
+        unify = not (barrier_flag(f) and "Adaptive" not in f["qn"])
+
+        def fld(t):
+            x = S(t, al)
+            return "scan" if x.endswith(".scanStart") else "cur" if x.endswith(".curIndex") else None
+
+        def guard_of(t):
+            """which field `index` is compared with (earlier-than), or None"""
+            if not isinstance(t, dict):
+                return None
+            l = r = None
+            if t.get("k") == "call" and len(t.get("a", [])) == 2 and S(t.get("recv") or {}, al).endswith("compare"):
+                l, r = t["a"]
+            elif t.get("k") == "bin" and t.get("op") == "<":
+                l, r = t["l"], t["r"]
+            elif t.get("k") == "call" and t.get("op") == "<" and len(t.get("a", [])) == 2:
+                l, r = t["a"]
+            elif t.get("k") == "call" and t.get("op") == "<" and len(t.get("a", [])) == 1 and t.get("recv"):
+                l, r = t["recv"], t["a"][0]
+            if l is None or S(l, al) != "index":
+                return None
+            return fld(r)
+
+        # state: (value of cur, value of scan, literal `index earlier than old cur`, same for old scan)
+        def on_event(st, pos, e):
+            cur, scan, lc, ls = st
+            tgt = val = None
+            if e.get("k") == "assign" and e.get("op") == "=":
+                tgt, val = fld(e.get("lhs")), S(e.get("rhs"), al)
+            elif e.get("k") == "call" and e.get("op") == "=" and e.get("a"):
+                tgt, val = fld(e.get("recv") or {}), S(e["a"][0], al)
+            if tgt == "cur":
+                cur = val
+            elif tgt == "scan":
+                scan = val
+            return (cur, scan, lc, ls)
+
+        def on_edge(st, bid, i, t, val):
+            cur, scan, lc, ls = st
+            g = guard_of(t)
+            if g is None:
+                return st
+            v = cur if g == "cur" else scan
+            if v == "index":
+                return None if val else st          # index is not earlier than itself
+            if v != "old":
+                return st
+            known = lc if g == "cur" else ls
+            if known is not None and known != val:
+                return None
+            if unify or g == "cur":
+                lc = val
+            if unify or g == "scan":
+                ls = val
+            return (cur, scan, lc, ls)
+        at = fn.flow(("old", "old", None, None), on_event, on_edge)
+        tgt = lambda e: e.get("k") == "call" and e.get("name") == "push" and e.get("cls") != f.get("cls") and \
+            not S(e.get("recv") or {}, al).endswith(".current")
+        tg = list(fn.events(tgt))
+        det = []
+        if idx is None:
+            det.append("no local `index`")
+        if not tg:
+            det.append("no slow-path bucket push found")
+        for pos, e in tg:
+            for cur, scan, lc, ls in at.get(pos, {("old", "old", None, None)}):
+                if not (scan == "index" or (scan == "old" and ls is False)):
+                    det.append("bucket push at line %s reachable with the pushed index possibly earlier than scanStart and "
+                               "the watermark not lowered" % e.get("l"))
+        if unify:
+            bad = [st for st in at.get("exit", ()) if st[0] != st[1]]
+            ctx.ob("C08.obim.scanstart-invariant", f["qn"], not bad,
+                   "exit reachable with curIndex := %s but scanStart := %s" % (bad[0][0], bad[0][1]) if bad else "", fn.loc(),
+                   "push", fnkey=f["key"])
+        ctx.ob("C08.obim.scanstart-covers-push", f["qn"], not det, "; ".join(det), fn.loc(),
+               "push%s" % ("/barrier" if barrier_flag(f) and "Adaptive" not in f["qn"] else ""), fnkey=f["key"])
     pops = [f for f in insts(fx, OBIM + "::pop") if barrier_flag(f)]
     pushes = [f for f in insts(fx, OBIM + "::push") if barrier_flag(f) and len(f["params"]) == 1]
     empt = [f for f in insts(fx, OBIM + "::empty")]
